@@ -136,7 +136,8 @@ Print Assumptions vrel_gives_observables.
    operands through the environment) on which the grid semantics is defined, the shard model
    does not raise, and every canvas on its stack and in its environment agrees with the grid:
    same cells (text, attribute, charset), same width and height, same cursor and pop-up
-   coordinates.  Operands are left unchanged: the environment only grows, and what was bound
+   coordinates (a cursor whose row or column a trim removes is dropped together with that
+   content: [g_drop_cursor]; pop-up coordinates are kept).  Operands are left unchanged: the environment only grows, and what was bound
    stays related to the same grid value. *)
 Theorem canvas_composition_is_grid :
   forall leaves prog gst,
@@ -150,6 +151,19 @@ Proof.
   exists st. auto.
 Qed.
 Print Assumptions canvas_composition_is_grid.
+
+(* the cursor clause of trimming: after trim / trim_end / a trimming pad_trim_left_right /
+   pad_trim_top_bottom the grid value's cursor is the moved cursor when it is still inside
+   the canvas, and is gone otherwise (pop-up coordinates are never dropped) *)
+Theorem trimmed_cursor_is_inside_or_gone :
+  forall g c x y, cur (g_drop_cursor g c) = Some (x, y) -> 0 <= x < gwidth g /\ 0 <= y < gheight g.
+Proof. exact g_drop_cursor_inside. Qed.
+Print Assumptions trimmed_cursor_is_inside_or_gone.
+
+Theorem cursor_inside_survives_a_trim :
+  forall g c x y, cur c = Some (x, y) -> 0 <= x < gwidth g -> 0 <= y < gheight g -> g_drop_cursor g c = c.
+Proof. exact g_drop_cursor_keeps. Qed.
+Print Assumptions cursor_inside_survives_a_trim.
 
 (* one operation, from any related pair of states (the induction step of the theorem above):
    CanvasCombine, CanvasJoin, CanvasOverlay, CompositeCanvas(c), pad_trim_left_right,
@@ -202,7 +216,7 @@ Definition ex_leaf2 : canvas := Canvas 2 (LSolid 0 [46] 5 2).
 Definition ex_leaves : list (canvas * option (Z * Z)) := [(ex_leaf1, Some (2, 1)); (ex_leaf2, None)].
 Definition ex_prog : list instr :=
   [ ILeaf 1; ILeaf 2; ILeaf 1; ICombine 3; IFillAttr [(0, 7); (2, 5)]; ITrim 1 (Some 4); IPadTB 1 (-1);
-    ISetPopUp 9 1 1; IBind;
+    ISetPopUp 9 1 1; ISetCursor (Some (3, 2)); IBind;
     IRef 0; IWrap; ITrimEnd 2; IFinalize; IBind;
     IRef 0; ILeaf 1; ILeaf 2; IJoin [6; 5; 7]; IPadLR (-2) 1; IBind;
     IRef 2; ILeaf 1; IWrap; IPadLR (-1) (-1); IOverlay 4 1; IBind ].
@@ -211,7 +225,7 @@ Example ex_grid_defined :
   match grun ex_leaves (GS [] []) ex_prog with
   | Some gst => map (fun v => (gheight (gg v), gwidth (gg v), gco v)) (genv gst)
   | None => []
-  end = [ (4, 5, Coords (Some (2, 5)) (Some (1, 1, 9))); (2, 5, Coords (Some (2, 5)) (Some (1, 1, 9)));
+  end = [ (4, 5, Coords (Some (3, 2)) (Some (1, 1, 9))); (2, 5, Coords None (Some (1, 1, 9)));   (* trim_end drops the cursor with its row *)
           (4, 17, Coords (Some (6, 1)) (Some (-1, 1, 9))); (4, 17, Coords (Some (5, 2)) (Some (-1, 1, 9))) ].
 Proof. vm_compute. reflexivity. Qed.
 
